@@ -52,3 +52,31 @@ META['C05'] = dict(
     technique='property-based metamorphic testing (rapid): slab history / representation / withPos / call-sequence / scheme-history equalities',
     level_text='Exploration: generated metamorphic pairs; every inequality is a violation except the one listed known finding (V2 start offset without positions), recognised by an exact classifier.',
     level_note='Trusts only equality of results between two executions of the code under test; scheme-history relation additionally trusts the reference scorer.')
+
+META['C01'] = dict(
+    engine='rapid-lib',
+    design_ref='DESIGN.md section 4, C01',
+    technique='property-based testing (rapid) with a reference model: query AST generator + independent evaluator of the documented search grammar, set equality both ways against fzf.Run filter mode',
+    level_text='Exploration: tens of thousands (quick) to ~1M (thorough) generated (query, options, list) cases through the real filter pipeline; printed multiset must equal the oracle\'s match set.',
+    level_note='Trusts harness/oracle (grammar parser/evaluator, folding, predicates per term kind); the generator only emits queries whose reading is documented (guarded by a parse-back check).')
+
+META['C04'] = dict(
+    engine='rapid-lib',
+    design_ref='DESIGN.md section 4, C04',
+    technique='property-based testing (rapid) against a reference ranking: independent documented score + tiebreak keys, stable global sort; input-order oracle for --no-sort / empty / negation-only queries',
+    level_text='Exploration: generated lists with forced score/tiebreak collisions across 0, 1 and several chunks, all filter code paths (streaming, sorted, --tac, --sync).',
+    level_note='Library-level order oracle covers positive fuzzy(v2)/prefix/suffix/equal terms with tiebreaks length/index; other criteria via in-package merger check and the C05 sub-list relation.')
+
+META['C06'] = dict(
+    engine='rapid-lib',
+    design_ref='DESIGN.md section 4, C06',
+    technique='property-based testing (rapid) against a record-splitter / header / tail model',
+    level_text='Exploration: generated streams, read schedules and header/tail settings; every record must become exactly one item in order.',
+    level_note='Trusts the splitter model in harness/oracle and that input sources behave like *os.File (n>0,nil)*(0,EOF).')
+
+META['C07'] = dict(
+    engine='rapid-lib',
+    design_ref='DESIGN.md section 4, C07',
+    technique='property-based testing (rapid): byte-exact expected output from a field/ANSI model + exit-status table',
+    level_text='Exploration: generated lines and framing option combinations through the filter pipeline (library) and the real binary (process level).',
+    level_note='Trusts the field model and ANSI model in harness/oracle.')
